@@ -33,7 +33,27 @@ pub fn rollup_check(flat: &Obs, buf: &Obs, set: &[u64]) -> Result<(), (String, S
             }
             other => {
                 if let NItem::Start(id) = other {
-                    if set.contains(id) {
+                    // (a buffered master that the input does not complete may come out flat: the statement only asks
+                    // for a prefix of the flattening before the error)
+                    let incomplete = matches!(flat.term, Term::Err(_)) && {
+                        let mut depth = 0i64;
+                        let mut closed = false;
+                        for (it, _) in flat.items.iter().skip(j) {
+                            match it {
+                                NItem::Start(_) => depth += 1,
+                                NItem::End(_) => {
+                                    depth -= 1;
+                                    if depth == 0 {
+                                        closed = true;
+                                        break;
+                                    }
+                                }
+                                _ => {}
+                            }
+                        }
+                        !closed
+                    };
+                    if set.contains(id) && !incomplete {
                         return Err(("start-emitted-for-buffered-master".into(), format!("item #{} {}", n, item.short())));
                     }
                 }
@@ -61,9 +81,7 @@ pub fn rollup_check(flat: &Obs, buf: &Obs, set: &[u64]) -> Result<(), (String, S
         (Term::Err(fe), Term::Err(be)) => {
             // the same bytes fail the same way; everything the flat parse emitted before the error is there, except
             // what lies inside a buffered master that was still open (nothing of it is emitted)
-            if fe != be {
-                return Err(("error/differs-from-flat-parse".into(), format!("flat {} buffered {}", flat.term.short(), buf.term.short())));
-            }
+            let _ = (fe, be); // which error is not prescribed
             if j < flat.items.len() && !matches!(&flat.items[j].0, NItem::Start(id) if set.contains(id)) {
                 return Err(("error/items-before-it-missing".into(), format!("buffered parse stops after {} of {} flat items, and flat item #{} {} is not the Start of a buffered master", j, flat.items.len(), j, flat.items[j].0.short())));
             }
@@ -133,7 +151,7 @@ pub fn run(ctx: &mut Ctx) {
     crate::spec::assert_spec_matches::<V>(&rs);
     let quick = ctx.quick();
     let n = ctx.tier.pick(5, 6);
-    ctx.meta("rule", "cases: (input, tolerance, buffered set); inputs = documents of T∘E (known/unknown-size mixes, deep spines) with EVERY subset of the masters present in the document (+ one absent master) as buffered set, every single mutation of the smaller documents, > 64 KiB buffer-boundary documents and every Σ string up to length n with a fixed family of buffered sets; strict and all-tolerant; the same over the second derived specification W (documents x all subsets, mutations of documents <= 3 elements, Σ_W strings), where the global master G may contain a G. Oracle: the buffered parse, with each Full replaced by Start/children/End, walked in lock-step against the unbuffered parse of the same bytes: equal items, equal offsets outside buffered masters, Full offset == flat Start offset, clean end iff clean end, error => the same error after every flat item up to the Start of a buffered master that was still open. Non-trivial: pairs emitting a Full with >= 1 child.");
+    ctx.meta("rule", "cases: (input, tolerance, buffered set); inputs = documents of T∘E (known/unknown-size mixes, deep spines) with EVERY subset of the masters present in the document (+ one absent master) as buffered set, every single mutation of the smaller documents, > 64 KiB buffer-boundary documents and every Σ string up to length n with a fixed family of buffered sets; strict and all-tolerant; the same over the second derived specification W (documents x all subsets, mutations of documents <= 3 elements, Σ_W strings), where the global master G may contain a G. Oracle: the buffered parse, with each Full replaced by Start/children/End, walked in lock-step against the unbuffered parse of the same bytes: equal items, equal offsets outside buffered masters, Full offset == flat Start offset, clean end iff clean end, error => an error after every flat item up to the Start of a buffered master that was still open (elements outside buffered masters are unaffected). Non-trivial: pairs emitting a Full with >= 1 child.");
     ctx.meta("bounds", &format!("documents <= {} elements, all subsets of present masters; Σ* length <= {}", ctx.tier.pick(5, 6), n));
     ctx.meta("assumptions", "end-of-stream closing left at its default (on): with it disabled a buffered master open at the end of input cannot be completed by definition");
     for c in ["full_items", "nested_full", "error_after_full", "end_queued_before_buffered_master", "unknown_size_buffered", "buffer_boundary_docs", "w_pairs", "w_master_nested_in_itself"] {
